@@ -4,7 +4,10 @@ def units_for(prop, reg, tier):
         u.append(("fxvc.obl:run", "fx:frames"))
     if prop == "C19":
         u += [("fxvc.obl:run", "fx:readonly"), ("fxvc.obl:run", "fx:frames")]
-    if prop in ("C06", "C07", "C08", "C09", "C10", "C14"):
+    if prop in ("C02", "C06", "C07", "C08", "C09", "C10", "C14"):
         # the section parsers receive one-shot iterators: each must consume its lines once
         u.append(("fxvc.obl:run", "fx:iterables"))
+    if prop not in ("C17", "C13", "C19") and any(prop in c.props for c in reg.all()):
+        # T6 per property: the frames of the functions this property's contracts are about
+        u.append(("fxvc.obl:run", f"fx:unit-frames:{prop}"))
     return u
